@@ -122,6 +122,8 @@ def plan(prop, tier, seed):
         add(['tb2', 'tbshift', 'tbloop', 'tb_hy', 'hy_tb', 'hyb2pm', 'hyb2p', 'tb_ev'], K=3, lazies=(True, False))
         add(['hyb2', 'ev2', 'weaktb', 'weakonly', 'weak2', 'grp_sib'] + multi, K=2 if q else 3)
         add(['multi_shift', 'multi_tb'], K=3, lazies=(True,))
+        add(['multi_attr2', 'multi_attr2r'], K=3, lazies=(True,))
+        add(['fanout_attr2'], K=2, until=3, masks='extremes')
         add(['ent2', 'ent2x', 'ent2hy'], K=2 if q else 3, lazies=(True, False))
         add(['ent2fan'], K=2)
         add(['fanout_shift2', 'fanout_shift2r'], K=3, until=3, caches=(True, False), masks='extremes')
